@@ -16,7 +16,7 @@ import numpy as np
 
 ID = 'C03'
 TITLE = 'Feature, match and depth arrays persist bit-exactly as raw little-endian dumps'
-GEN = ['FileNames', 'SpecPaths']
+GEN = ['FileNames', 'SpecPaths', 'IoShapes']
 RULE = ('each array case draws a dtype from {float16/32/64, int8..64, uint8..64}, rows 0..6, cols 1..8, random bit patterns '
         '(NaN payloads, inf, -0.0 included), a memory layout (C contiguous, Fortran ordered, strided view, big-endian view), a '
         'storage (file, tar or depth), a feature kind and a history (first write / overwrite of a same-shape array read before / '
